@@ -327,6 +327,75 @@ class TtrFit(FrameFit):
         return out
 
 
+@contract(MM + "extended_features.py::ExtendedFeatures.fit", "C02")
+class ExtendedFit(FrameFit):
+    """polynomial features: fit only records the number of input / output columns"""
+    frame_only = True
+    variants = [(kind, n, d, io, b) for kind in ("poly", "poly-slow") for n, d in ((1, 2), (2, 2), (3, 3)) for io in (False, True) for b in (False, True)]
+    params = ["kind", "poly_degree", "poly_interaction_only", "poly_include_bias"]
+    data = ["X"]
+
+    def setup(self, E, v):
+        kind, n, d, io, b = v
+        f = dict(kind=kind, poly_degree=d, poly_interaction_only=io, poly_include_bias=b)
+        return dict(self=E.new_obj(MM + "extended_features.py::ExtendedFeatures", f), X=E.nd("X", (E.size("m", 0), n)), y=None)
+
+
+@contract(MM + "categories_to_integers.py::CategoriesToIntegers.fit", "C02")
+class CategoriesFit(FrameFit):
+    """one-hot schema of a data frame (3 rows, two categorical columns with missing cells, one numeric column; arbitrary cell contents)"""
+    frame_only = True
+    variants = ["explicit-columns", "detected-columns"]
+    params = ["columns", "remove", "skip_errors", "single"]
+    data = []
+    max_paths = 30000
+
+    def setup(self, E, v):
+        from pyvc import pdmodel
+        from pyvc.values import NaN
+        cols = ["a", "b"] if v == "explicit-columns" else None
+        s = E.new_obj(MM + "categories_to_integers.py::CategoriesToIntegers", dict(columns=cols, remove=None, skip_errors=False, single=False))
+        data_ = {"a": [E.str("a0"), E.str("a1"), None], "b": [E.str("b0"), NaN, E.str("b2")], "x": [E.real("x0"), E.real("x1"), E.real("x2")]}
+        frame = pdmodel.new_frame(["a", "x", "b"], data_)
+        return dict(self=s, X=frame, y=None, _cols=cols, _frame=frame, _cells={k: list(v_) for k, v_ in data_.items()})
+
+    def at_exit(self, E, a, old, exc):
+        out = FrameFit.at_exit(self, E, a, old, exc)
+        # the list given as `columns` is the caller's: same object, same content
+        if a._cols is not None:
+            out["the_callers_column_list_is_not_modified"] = z3.BoolVal(a.self.fields.get("columns") is a._cols and a._cols == ["a", "b"])
+        return out
+
+
+@contract(MM + "predictable_tsne.py::PredictableTSNE.fit", "C02")
+class TsneFit(FrameFit):
+    """the normalizer, the t-SNE transformer and the estimator given by the caller are cloned: fit never calls set_params on them nor fits them,
+    whatever the number of rows (with fewer rows than the perplexity the perplexity of fit's OWN copy is lowered)"""
+    frame_only = True
+    variants = [(hn, hw) for hn in (False, True) for hw in (False, True)]
+    params = ["normalizer", "transformer", "estimator", "normalize", "keep_tsne_outputs"]
+
+    def setup(self, E, v):
+        has_norm, has_w = v
+        tr = models.new_estimator(E, "tsne", methods=("fit", "fit_transform", "get_params", "set_params"))
+        tr.fields["perplexity"] = E.real("perplexity")
+        tr.fields["$param_fields"] = ["perplexity"]
+        tr.fields["$params"] = {"perplexity": tr.fields["perplexity"]}
+        f = dict(normalizer=models.new_estimator(E, "normalizer", methods=("fit", "transform", "get_params", "set_params")) if has_norm else None,
+                 transformer=tr, estimator=models.new_estimator(E, "estimator", methods=EST_METHODS), normalize=True, keep_tsne_outputs=False)
+        return dict(self=E.new_obj(MM + "predictable_tsne.py::PredictableTSNE", f), **data(E, has_w))
+
+    def at_exit(self, E, a, old, exc):
+        out = FrameFit.at_exit(self, E, a, old, exc)
+        s = a.self
+        given = [s.fields[k] for k in ("normalizer", "transformer", "estimator") if s.fields[k] is not None]
+        out["given_objects_never_fitted"] = z3.BoolVal(all(("call", "fit") not in g.events for g in given))
+        out["perplexity_of_the_given_transformer_unchanged"] = z3.BoolVal(
+            z3.eq(z(s.fields["transformer"].fields["perplexity"]), z(old["fields"]["transformer"].fields["perplexity"]))
+            and not any(e[0] == "set" for e in s.fields["transformer"].events))
+        return out
+
+
 from contracts import C13 as _c13
 
 
